@@ -241,8 +241,12 @@ class RawMeshData:
                         (v2,v3,v7,v6),
                         (v3,v4,v8,v7)
                     ]
+                else:
+                    raise Exception(f"Cell {iC} has {len(C)} vertices: only tetrahedra (4) and hexahedra (8) are supported")
                 for face in faces_C:
-                    self.cell_faces._elem.append(face_id[utils.keyify(face)])
+                    iF = face_id.get(utils.keyify(face), None)
+                    if iF is None: continue # faces were not completed from cells
+                    self.cell_faces._elem.append(iF)
                     self.cell_faces._adj.append(iC)
 
     def _complete_edges_from_faces(self):
